@@ -54,11 +54,12 @@ const (
 	kCmdTruncated
 	kCloseOk
 	kCloseFail
+	kCmdExpireInBackoff
 	kNumOps
 )
 
 var c18OpNames = []string{"new-session-ok", "new-session-fail-status", "new-session-fail-password", "new-session-fail-icv", "new-session-discovery-ok", "new-session-no-supported-suite",
-	"cmd-ok", "cmd-code-c1-body-missing", "cmd-nobody-code-c1", "cmd-busy-then-ok", "cmd-busy-busy-ok", "cmd-garbage-then-ok", "cmd-lost-reply", "cmd-context-expires", "cmd-unserialisable", "cmd-truncated-body", "close-ok", "close-fail"}
+	"cmd-ok", "cmd-code-c1-body-missing", "cmd-nobody-code-c1", "cmd-busy-then-ok", "cmd-busy-busy-ok", "cmd-garbage-then-ok", "cmd-lost-reply", "cmd-context-expires", "cmd-unserialisable", "cmd-truncated-body", "close-ok", "close-fail", "cmd-context-ends-during-backoff"}
 
 // real-socket op codes
 const (
@@ -246,6 +247,16 @@ func c18One(c c18Case) (string, string) {
 			runCmd("Get Device ID", &ipmi.GetDeviceIDCmd{}, []env.Answer{env.LostReply()}, false)
 		case kCmdCtxExpire:
 			runCmd("Get Chassis Status", &ipmi.GetChassisStatusCmd{}, nil, true)
+		case kCmdExpireInBackoff:
+			// the reply is garbage (retryable everywhere); the caller's context ends
+			// while the library waits before the retransmission: no retry is made
+			cctx, cancel := newCtx()
+			saved := w.Ctx
+			w.Ctx = cctx
+			backoff.VerifSleep = func(ctx context.Context, d time.Duration) bool { cancel(); return true }
+			runCmd("Get System GUID", &ipmi.GetSystemGUIDCmd{}, []env.Answer{garbage}, false)
+			backoff.VerifSleep = w.T.Sleep
+			w.Ctx = saved
 		case kCmdUnserialisable:
 			runCmd("Set Session Privilege Level", &ipmi.SetSessionPrivilegeLevelCmd{Req: ipmi.SetSessionPrivilegeLevelReq{PrivilegeLevel: ipmi.PrivilegeLevelCallback}}, nil, false)
 		case kCmdTruncated:
@@ -459,7 +470,7 @@ func runC18(r *rep.R) {
 		}
 		out := "metrics-equal:commands-only"
 		for _, o := range c.Ops {
-			if o <= kNSNoSuite || o >= kCloseOk {
+			if o <= kNSNoSuite || o == kCloseOk || o == kCloseFail {
 				out = "metrics-equal:with-session-opens-and-closes"
 			}
 			if o >= 100 {
